@@ -141,6 +141,9 @@ def scenarios():
     S['rebuild_two_then_fail'] = dict(prior=[bf('d/x', w('old-x'), name='v1'), bf('d/y', w('old-y'), name='v1')],
                                       threads=[bf('d/x', w('new-x'), name='v2'), bf('d/y', w('new-y'), name='v2')], root_raises=True)
     S['build_two_then_fail'] = dict(threads=[bf('a/x', w('1')), bf('a/b/y', w('2'))], root_raises=True)
+    # two foreign files overwritten by two threads in a build that then fails: both must be back (C03's last sentence)
+    S['overwrite_foreign_then_fail'] = dict(files={'d/x': 'foreign-x', 'd/y': 'foreign-y', 'd/z': 'foreign-z'},
+                                            threads=[bf('d/x', w('new-x')), bf('d/y', w('new-y'))], root_raises=True)
     return S
 
 
@@ -176,6 +179,11 @@ def run_scenario(scn, mode, deviations=None, order=None):
     s = None
     out = {'root_dir': root}
     try:
+        for rel_, data in sorted((scn.get('files') or {}).items()):
+            os.makedirs(os.path.dirname(P(rel_)), exist_ok=True)
+            with open(P(rel_), 'w') as fh:
+                fh.write(data)
+            os.utime(P(rel_), ns=(1_600_000_000_000_000_000, 1_600_000_000_000_000_000))
         if scn.get('prior'):
             FB.build(cache, 'n', lambda b: [x(b, P, []) for x in scn['prior']])
         bodies = scn['threads']
